@@ -264,7 +264,25 @@ func c17Refusal(r *core.Report) {
 			}
 			return true
 		})
-		isEnd := func(e ast.Expr) bool { o := core.ObjOf(info, e); return o != nil && ends[o] }
+		isEnd := func(e ast.Expr) bool {
+			e = core.Unparen(e)
+			if o := core.ObjOf(info, e); o != nil && ends[o] {
+				return true
+			}
+			// K[1] of a Range value built here (a local, or the literal itself): what a validity helper that was inlined
+			// into the condition compares with the size
+			if ix, ok := e.(*ast.IndexExpr); ok {
+				if v, isC := core.ConstInt(info, ix.Index); isC && v == 1 {
+					if o := core.ObjOf(info, ix.X); o != nil && ranges[o] {
+						return true
+					}
+					if cl, isLit := core.Unparen(ix.X).(*ast.CompositeLit); isLit && strings.HasSuffix(core.NamedTypeName(info.TypeOf(cl)), ".Range") && len(cl.Elts) == 2 {
+						return true
+					}
+				}
+			}
+			return false
+		}
 		isSize := func(e ast.Expr) bool { return onRecvField(e, "size") }
 		// a helper `func (r Range) valid(size) bool { return ... && r[1] <= size && ... }` called with the file size
 		boundsEndBySize := func(c *ast.CallExpr) bool {
